@@ -1,8 +1,8 @@
 (* C14 — property theorems.  Only statements, each closed by [exact], each followed by
    Print Assumptions. *)
 From Coq Require Import ZArith QArith List Bool.
-From Centro Require Import Model.Circle Model.HullFill Spec.MecSpec Spec.FeretSpec Spec.FeretLower Spec.FillSpec
-  Proofs.MecProofs Proofs.CircleProofs Proofs.FeretProofs Proofs.FeretLowerProofs Proofs.FillProofs Proofs.FillEdgeProofs.
+From Centro Require Import Model.Circle Model.Feret Model.HullFill Spec.MecSpec Spec.FeretSpec Spec.FeretLower Spec.FillSpec
+  Proofs.MecProofs Proofs.CircleProofs Proofs.FeretProofs Proofs.FeretLowerProofs Proofs.SweepProofs Proofs.FillProofs Proofs.FillEdgeProofs.
 
 (* Full.  Soundness of the certificate checker that is run on the exact circle reconstructed from
    the implementation's output: the circle contains every pixel centre of S and no circle
@@ -83,6 +83,17 @@ Theorem C14_feret_min_lower_bound : forall S l wn wd,
     (wn * (fst u * fst u + snd u * snd u) <= (hi - lo) * (hi - lo) * wd)%Z.
 Proof. exact feret_lower_sound. Qed.
 Print Assumptions C14_feret_min_lower_bound.
+
+(* Partial (calipers = brute force).  Proved about the executable model of the antipodal sweep, for
+   every vertex list: the sweep only records pairs of valid hull indices, so the maximum it
+   reports never exceeds the largest pairwise distance.  Missing: the converse (a farthest pair is
+   always among the recorded antipodal pairs) and the equality of the minimum construction with the
+   narrowest edge strip.  The model carries the brute-force values next to the sweep's, so any
+   disagreement on a generated hull is a concrete refutation; none occurred. *)
+Theorem C14_calipers_eq_bruteforce_partial : forall h mx mn,
+  sweep h = Some (mx, mn) -> (mx <= max_d2 h)%Z.
+Proof. exact sweep_max_sound. Qed.
+Print Assumptions C14_calipers_eq_bruteforce_partial.
 
 (* Full.  Soundness of the fill checker run on the implementation's output: the rows are pairwise
    distinct and are exactly the lattice points (i,j) inside or on the polygon H of some object,
